@@ -279,21 +279,38 @@ func janitorMode(a map[string]string) {
 	type ctor struct {
 		name string
 		mk   func(interval time.Duration, cb func(k string, v interface{})) cacheAPI
+		noCb bool // built without a callback: one is installed afterwards (SetEvictedCallback), and the janitor must use it
 	}
 	ctors := []ctor{
 		{"New(opts)", func(i time.Duration, cb func(string, interface{})) cacheAPI {
 			return plain{cache.New(cache.WithCleanupInterval(i), cache.WithEvictedCallback(cb))}
-		}},
+		}, false},
 		{"NewDefault", func(i time.Duration, cb func(string, interface{})) cacheAPI {
 			return plain{cache.NewDefault(time.Hour, i, cb)}
-		}},
+		}, false},
 		{"NewOf(opts)", func(i time.Duration, cb func(string, interface{})) cacheAPI {
 			return generic{cache.NewOf[string, interface{}](cache.WithCleanupIntervalOf[string, interface{}](i), cache.WithEvictedCallbackOf[string, interface{}](cb))}
-		}},
+		}, false},
 		{"NewOfDefault", func(i time.Duration, cb func(string, interface{})) cacheAPI {
 			return generic{cache.NewOfDefault[string, interface{}](time.Hour, i, cb)}
-		}},
+		}, false},
+		{"New(opts, no callback)", func(i time.Duration, cb func(string, interface{})) cacheAPI {
+			return plain{cache.New(cache.WithCleanupInterval(i))}
+		}, true},
+		{"NewDefault(no callback)", func(i time.Duration, cb func(string, interface{})) cacheAPI {
+			return plain{cache.NewDefault(time.Hour, i)}
+		}, true},
+		{"NewDefault(nil callback)", func(i time.Duration, cb func(string, interface{})) cacheAPI {
+			return plain{cache.NewDefault(time.Hour, i, nil)}
+		}, true},
+		{"NewOf(opts, no callback)", func(i time.Duration, cb func(string, interface{})) cacheAPI {
+			return generic{cache.NewOf[string, interface{}](cache.WithCleanupIntervalOf[string, interface{}](i))}
+		}, true},
+		{"NewOfDefault(no callback)", func(i time.Duration, cb func(string, interface{})) cacheAPI {
+			return generic{cache.NewOfDefault[string, interface{}](time.Hour, i)}
+		}, true},
 	}
+	cbCtors := ctors[:4] // the variants that install the callback they are given
 	intervals := []time.Duration{-time.Second, -1, 0, 10 * time.Second, 30 * time.Second}
 	for _, ct := range ctors {
 		for _, iv := range intervals {
@@ -315,7 +332,7 @@ func janitorMode(a map[string]string) {
 			// the callback in force is the one installed last (SetEvictedCallback), not the constructor's
 			var fresh int64
 			firedPtr = &fired
-			swapped := iv == 30*time.Second || iv == -1
+			swapped := iv == 30*time.Second || iv == -1 || ct.noCb
 			if swapped {
 				c.SetCallback(func(k string, v interface{}) { atomic.AddInt64(&fresh, 1) })
 				firedPtr = &fresh
@@ -365,7 +382,7 @@ func janitorMode(a map[string]string) {
 		}
 	}
 	// a callback that re-enters the cache (on the evicted key and on a new one) must not stall the janitor
-	for _, ct := range ctors {
+	for _, ct := range cbCtors {
 		var fired int64
 		var c cacheAPI
 		c = ct.mk(10*time.Second, func(k string, v interface{}) {
@@ -396,7 +413,7 @@ func janitorMode(a map[string]string) {
 	// "reload on eviction": the callback stores the evicted key again with a TTL (once).  Nothing else with a TTL is
 	// left in the cache, and nobody calls the cache from outside: the janitor alone must collect the reloaded entry
 	// and report it
-	for _, ct := range ctors {
+	for _, ct := range cbCtors {
 		var first, second int64
 		var c cacheAPI
 		c = ct.mk(10*time.Second, func(k string, v interface{}) {
@@ -425,7 +442,7 @@ func janitorMode(a map[string]string) {
 	}
 	// a cache dropped while its janitor is in the middle of a pass (inside the evicted callback): once the pass is
 	// over the janitor must stop and the contents must become collectable
-	for _, ct := range ctors {
+	for _, ct := range cbCtors {
 		gate := make(chan struct{})
 		entered := make(chan struct{}, 1)
 		finalized := make(chan struct{})
